@@ -140,7 +140,28 @@ def h_getslice(I, st, ov, sl, ctx):
         seq = st.heap[ov.oid].seq
         if lo is None and hi is None:
             return [(st, I.alloc_list(st, seq))]
+    if isinstance(ov, Sym) and (lo, hi, stp) == (None, None, -1):
+        # x[::-1] of a symbolic tuple/list value: the reversed sequence (same type and length, item i is
+        # item n-1-i of x)
+        t = ov.t
+        out = []
+        for (q, b) in I.branch(st, z3.Or(vm.ty(t) == vm.TAG["tuple"], vm.ty(t) == vm.TAG["list"])):
+            if b:
+                r = reversed_of(t)
+                i = z3.Int("i!rev")
+                I.U.well_typed(r)
+                I.U.axioms += [vm.ty(r) == vm.ty(t), vm.tlen(r) == vm.tlen(t),
+                               z3.ForAll([i], z3.Implies(z3.And(i >= 0, i < vm.tlen(t)), vm.titem(r, i) == vm.titem(t, vm.tlen(t) - 1 - i)),
+                                         patterns=[vm.titem(r, i)])]
+                out.append((q, Sym(r)))
+            else:
+                q.notes.append("[::-1] on a value that is neither tuple nor list: outside value model")
+                out.append((q, Raise("$Unmodelled")))
+        return out
     return None
+
+
+reversed_of = z3.Function("reversed_of", V, V)
 
 
 def h_new_listproxy(I, st, fv, args, kwargs, ctx):
